@@ -13,15 +13,16 @@ Definition mkq (k : kind) (v : float) (u : string) : fq := @Build_qty F0 k v u.
 Inductive plit := LQ (k : kind) (v : float) (u : string) | LN (v : float) | LStr.   (* LStr: an operand of a foreign type *)
 Inductive outcome := XQ (k : kind) (v : float) (u : string) | XN (v : float) | XB (b : bool) | XNone | XErr (e : exn).
 Inductive qop := QAdd | QSub | QMul | QDiv | QRMul | QAbs | QNeg | QCmp (m : mname) | QTo (u : string) | QToInplace (u : string) | QCtor.
-Record qcase := { c_op : qop; c_a : plit; c_b : plit; c_out : outcome }.
+(** [c_pre = Some u]: the left operand is first converted to unit u IN PLACE (the same object then takes part in the operation) *)
+Record qcase := { c_op : qop; c_a : plit; c_b : plit; c_pre : option string; c_out : outcome }.
 
 Definition pv (l : plit) : pyval F0 := match l with LQ k v u => @PQ F0 (mkq k v u) | LN v => @PN F0 v | LStr => @PNone F0 end.
 Definition out_of (r : res (pyval F0)) : outcome :=
   match r with
   | Ok (PQ q) => XQ (qk q) (qv q) (qu q) | Ok (PN x) => XN x | Ok (PB b) => XB b | Ok PNone => XNone
   | Err e => XErr e end.
-Definition run_case (c : qcase) : outcome :=
-  match c_op c, c_a c, c_b c with
+Definition run_case0 (op : qop) (a b : plit) : outcome :=
+  match op, a, b with
   | QAdd, LQ k v u, b => out_of (@py_add F0 GEN (mkq k v u) (pv b))
   | QSub, LQ k v u, b => out_of (@py_sub F0 GEN (mkq k v u) (pv b))
   | QMul, LQ k v u, b => out_of (@py_mul F0 GEN (mkq k v u) (pv b))
@@ -36,6 +37,15 @@ Definition run_case (c : qcase) : outcome :=
   | QToInplace t, LQ k v u, _ => out_of (q <- @to_inplace F0 GEN (mkq k v u) t ;; Ok (@PQ F0 q))
   | QCtor, LQ k v u, _ => out_of (q <- @ctor F0 GEN k v u ;; Ok (@PQ F0 q))
   | _, _, _ => XErr OutOfFuel
+  end.
+Definition run_case (c : qcase) : outcome :=
+  match c_pre c, c_a c with
+  | Some u, LQ k v u0 =>
+      match @to_inplace F0 GEN (mkq k v u0) u with
+      | Ok q => run_case0 (c_op c) (LQ (qk q) (qv q) (qu q)) (c_b c)
+      | Err e => XErr e
+      end
+  | _, _ => run_case0 (c_op c) (c_a c) (c_b c)
   end.
 Definition outcome_eqb (a b : outcome) : bool :=
   match a, b with
